@@ -297,7 +297,7 @@ theorem resolveInline_done {mm : SMap (Name × Nat)} :
     · exact resolveInlineRhs_done h1
     · exact resolveInline_done h2 p hp
 
-theorem resolveRhs_np {se : Bool} {terms : SMap Term} {nts : List NonTerm} {p : GProd} {n : Nat} :
+theorem resolveRhs_np {se : RFlags} {terms : SMap Term} {nts : List NonTerm} {p : GProd} {n : Nat} :
     ∀ {l : List RAssign}, (∀ a, a ∈ l → StrDone a) → NoPanic (resolveRhs se terms nts p n l)
   | [], _ => NoPanic.ok _
   | a :: as, hd => by
@@ -309,6 +309,8 @@ theorem resolveRhs_np {se : Bool} {terms : SMap Term} {nts : List NonTerm} {p : 
       · rename_i hi
         split
         · apply NoPanic.ite (fun _ => NoPanic.err _)
+          intro _
+          apply NoPanic.ite (fun _ => NoPanic.err _)
           intro _
           split
           · exact NoPanic.ok _
@@ -322,7 +324,7 @@ theorem resolveRhs_np {se : Bool} {terms : SMap Term} {nts : List NonTerm} {p : 
     · intro _ _
       exact NoPanic.bind (resolveRhs_np (fun b hb => hd b (by simp [hb]))) (fun _ _ => NoPanic.ok _)
 
-theorem resolveRefs_np {se : Bool} {terms : SMap Term} {nts : List NonTerm} :
+theorem resolveRefs_np {se : RFlags} {terms : SMap Term} {nts : List NonTerm} :
     ∀ {ps : List GProd}, (∀ p, p ∈ ps → ∀ a, a ∈ p.rhs → StrDone a) → NoPanic (resolveRefs se terms nts ps)
   | [], _ => NoPanic.ok _
   | p :: ps, hd => by
@@ -471,7 +473,7 @@ theorem resolveInline_below {mm : SMap (Name × Nat)} {B : Nat}
     · exact resolveInlineRhs_below hmm (hb q (by simp)) h1
     · exact resolveInline_below hmm (fun r hr => hb r (by simp [hr])) h2 p hp
 
-theorem resolveRhs_below {se : Bool} {terms : SMap Term} {nts : List NonTerm} {p : GProd} {n B : Nat}
+theorem resolveRhs_below {se : RFlags} {terms : SMap Term} {nts : List NonTerm} {p : GProd} {n B : Nat}
     (ht : ∀ k t, terms.get? k = some t → t.idx < B)
     (hn : ∀ nt, nt ∈ nts → nt.idx + terms.length < B) :
     ∀ {l l' : List RAssign}, (∀ a, a ∈ l → IdxBelow B a) → resolveRhs se terms nts p n l = .ok l' →
@@ -493,20 +495,22 @@ theorem resolveRhs_below {se : Bool} {terms : SMap Term} {nts : List NonTerm} {p
         · split at hx
           · cases hx
           · split at hx
-            · rename_i t ht'
-              cases hx
-              intro i hi
-              cases hi
-              exact ht _ t ht'
+            · cases hx
             · split at hx
-              · cases hx
-              · rename_i nt hf
-                split at hx
+              · rename_i t ht'
+                cases hx
+                intro i hi
+                cases hi
+                exact ht _ t ht'
+              · split at hx
                 · cases hx
-                · cases hx
-                  intro i hi
-                  cases hi
-                  exact hn nt (findNt_some hf).1
+                · rename_i nt hf
+                  split at hx
+                  · cases hx
+                  · cases hx
+                    intro i hi
+                    cases hi
+                    exact hn nt (findNt_some hf).1
         · split at hx
           · rename_i t ht'
             cases hx
@@ -516,7 +520,7 @@ theorem resolveRhs_below {se : Bool} {terms : SMap Term} {nts : List NonTerm} {p
           · cases hx
     · exact resolveRhs_below ht hn (fun c hc => hb c (by simp [hc])) hxs a ha
 
-theorem resolveRefs_below {se : Bool} {terms : SMap Term} {nts : List NonTerm} {B : Nat}
+theorem resolveRefs_below {se : RFlags} {terms : SMap Term} {nts : List NonTerm} {B : Nat}
     (ht : ∀ k t, terms.get? k = some t → t.idx < B)
     (hn : ∀ nt, nt ∈ nts → nt.idx + terms.length < B) :
     ∀ {ps ps' : List GProd}, (∀ p, p ∈ ps → ∀ a, a ∈ p.rhs → IdxBelow B a) → resolveRefs se terms nts ps = .ok ps' →
